@@ -194,7 +194,7 @@ type mgrScn struct {
 	replica    []int // per replica: 0 running, 1 stopped, 2 dead
 	active     int   // 0 full, 1 master only, 2 all but last, 3 absent
 	maint      int   // 0 absent, 1 light acked, 2 light unacked, 3 light should-leave, 4 full unacked, 5 full acked, 6 read error, 7 read error + file
-	sw         int   // 0 absent, 1 manual switchover to h2, 2 manual failover-type from master, 3 auto failover, 4 read error
+	sw         int   // 0 absent, 1 manual switchover to h2, 2 manual failover-type from master, 3 auto failover, 4 read error, 5 worker request without master_transition
 	swAge      int   // 0 now, 1 31 min ago, 2 zero initiated_at, 3 exactly 30 min ago
 	runCount   int
 	last       int // 0 absent, 1 auto 10 min ago, 2 auto 2 h ago, 3 manual 10 min ago, 4 result nil, 5 read error, 6 auto exactly cooldown ago
@@ -281,7 +281,7 @@ func mgrRun(t *testing.T, out *verifh.Out, s mgrScn, dir string, kind string) {
 		}
 	}
 	var swRec *Switchover
-	if s.sw >= 1 && s.sw <= 3 {
+	if (s.sw >= 1 && s.sw <= 3) || s.sw == 5 {
 		sw := Switchover{InitiatedBy: "op", RunCount: s.runCount}
 		switch s.sw {
 		case 1:
@@ -290,6 +290,9 @@ func mgrRun(t *testing.T, out *verifh.Out, s mgrScn, dir string, kind string) {
 			sw.From, sw.Cause, sw.MasterTransition = master, CauseManual, FailoverTransition
 		case 3:
 			sw.From, sw.Cause, sw.MasterTransition = master, CauseAuto, FailoverTransition
+		case 5:
+			// written by an external worker: no master_transition at all (handled as a planned switchover)
+			sw.To, sw.Cause = hosts[1], CauseWorker
 		}
 		switch s.swAge {
 		case 0:
@@ -362,6 +365,7 @@ func mgrRun(t *testing.T, out *verifh.Out, s mgrScn, dir string, kind string) {
 		wd.Nodes[master].StuckRO = -1
 	}
 	// ticks
+	var badSince time.Time
 	for tick := range s.masterHealth {
 		if tick > 0 {
 			time.Sleep(s.sleeps[tick-1])
@@ -397,6 +401,15 @@ func mgrRun(t *testing.T, out *verifh.Out, s mgrScn, dir string, kind string) {
 		case 6:
 			mh.IsFileSystemReadonly = true
 			mh.DaemonState.CrashRecovery = true
+		}
+		// ground truth for "bad at every evaluation for at least the delay": since when has the master's record been bad
+		// at every tick of this manager without interruption (zero = it was good at the last tick)
+		if mh == nil || !mh.PingOk || mh.IsFileSystemReadonly {
+			if badSince.IsZero() {
+				badSince = time.Now()
+			}
+		} else {
+			badSince = time.Time{}
 		}
 		tree.Del("health")
 		for h, st := range dcsView {
@@ -492,7 +505,7 @@ func mgrRun(t *testing.T, out *verifh.Out, s mgrScn, dir string, kind string) {
 		}
 		in := map[string]any{
 			"connected": s.lock != 2, "lock_held": s.lock == 0, "master": mk, "active_nodes": active,
-			"cs": vCSList(view), "dcs": vCSList(dcsView), "now": nowT.UnixNano(), "now_end": nowEnd.UnixNano(),
+			"cs": vCSList(view), "dcs": vCSList(dcsView), "now": nowT.UnixNano(), "now_end": nowEnd.UnixNano(), "bad_since": badSince.UnixNano(), "bad_since_zero": badSince.IsZero(),
 			"master_alive": wd.Nodes[master].Alive,
 			"maint": maintNow, "sw_read": s.sw, "last": s.last, "dcs_fault": s.dcsFault,
 		}
@@ -584,7 +597,7 @@ func mgrGen(r *rand.Rand, focus string) mgrScn {
 		s.masterKey = []int{0, 0, 0, 0, 0, 0, 0, 0, 0, 1}[r.Intn(10)]
 	case "C06":
 		s.maint = []int{0, 0, 0, 1}[r.Intn(4)]
-		s.sw = []int{1, 1, 2, 3, 0}[r.Intn(5)]
+		s.sw = []int{1, 1, 2, 3, 0, 5}[r.Intn(6)]
 		s.swAge = r.Intn(4)
 		s.runCount = r.Intn(3)
 		s.dcsFault = []int{0, 0, 0, 2}[r.Intn(4)]
